@@ -115,6 +115,28 @@ void gen_stream(vrng *r, gstream *g, int kind, size_t max_plain)
 			SK_RAW, SK_RAW, SK_BLOCK, SK_MICROLZMA, SK_INDEX, SK_GARBAGE };
 		kind = w[vrng_below(r, sizeof(w))];
 	}
+	if (kind == SK_XZ && vrng_chance(r, 1, 25)) {
+		// a Stream with 128..400 tiny Blocks: the Number of Records in the Index (and in the decoder's running
+		// hash of it) then needs two bytes, and the Index itself spans several hundred bytes
+		memset(g, 0, sizeof(*g));
+		g->kind = SK_XZ; g->plain_known = true; g->nstreams = 1;
+		unsigned nb = 128 + vrng_below(r, 273);
+		g->nblocks_hint = nb;
+		vcfg c; gen_cfg(r, &c, VCFG_ALLOW_DELTA, 1u << 16);
+		size_t fl[400]; size_t total = 0;
+		for (unsigned b = 0; b + 1 < nb; ++b) { total += 1 + vrng_below(r, 6); fl[b] = total; }
+		total += 1 + vrng_below(r, 6);
+		gen_data(r, &g->plain, total, -1, 4096);
+		lzma_stream strm = LZMA_STREAM_INIT;
+		lzma_ret ret = lzma_stream_encoder(&strm, c.filters, c.check);
+		if (ret == LZMA_OK) ret = encode_all(&strm, g->plain.p, g->plain.n, fl, nb - 1, LZMA_FULL_FLUSH, &g->data);
+		lzma_end(&strm);
+		if (ret != LZMA_STREAM_END) g->plain_known = false;
+		g->check = c.check;
+		snprintf(g->desc, sizeof(g->desc), "xz[%s,%zuB,%u tiny blocks]", c.desc, g->plain.n, nb);
+		vcfg_free(&c);
+		return;
+	}
 	if (kind == SK_XZ) {
 		unsigned k = vrng_below(r, 10);
 		unsigned ns = k < 7 ? 1 : (k < 9 ? 2 : 3);
